@@ -4,7 +4,7 @@ use crate::sim::Rng;
 use serde_json::{json, Value};
 use std::sync::{Arc, Mutex};
 use std::time::Duration;
-use tower_resilience_healthcheck::{HealthCheckWrapper, HealthStatus, SelectionStrategy};
+use tower_resilience_healthcheck::{HealthCheckConfig, HealthCheckWrapper, HealthStatus, SelectionStrategy};
 
 const INTERVAL: u64 = 10;
 const TIMEOUT: u64 = 3;
@@ -50,7 +50,7 @@ async fn run(cfg: &Value, rounds: &[Vec<String>], sels: &[Vec<(String, usize)>],
                 "u" => HealthStatus::Unhealthy,
                 "k" => HealthStatus::Unknown,
                 _ => {
-                    // slower than the check timeout
+                    // "s": slower than the check timeout (TIMEOUT); "l": the same latency under a longer timeout (cfg.tmo)
                     tokio::time::sleep(Duration::from_millis(TIMEOUT + 2)).await;
                     HealthStatus::Healthy
                 }
@@ -62,20 +62,48 @@ async fn run(cfg: &Value, rounds: &[Vec<String>], sels: &[Vec<(String, usize)>],
         "prefer" => SelectionStrategy::PreferHealthy,
         _ => SelectionStrategy::FirstAvailable,
     };
-    let mut b = HealthCheckWrapper::builder()
-        .with_checker(checker)
-        .with_interval(Duration::from_millis(INTERVAL))
-        .with_initial_delay(Duration::ZERO)
-        .with_timeout(Duration::from_millis(TIMEOUT))
-        .with_failure_threshold(cfg["ft"].as_u64().unwrap() as u32)
-        .with_success_threshold(cfg["sth"].as_u64().unwrap() as u32)
-        .with_selection_strategy(strat);
+    // cfg.tmo: check timeout (default TIMEOUT; 12 = longer than the interval); cfg.ctor: 0 the wrapper's own
+    // setters, 1 / 2 a HealthCheckConfig built separately (options in two orders) and handed over with with_config
+    let tmo = Duration::from_millis(cfg["tmo"].as_u64().unwrap_or(TIMEOUT));
+    let (ft, sth) = (cfg["ft"].as_u64().unwrap() as u32, cfg["sth"].as_u64().unwrap() as u32);
+    let mut view: Option<Value> = None;
+    let mut see = |c: &HealthCheckConfig| {
+        // the configuration in force is the one that was set (what "timed-out check" means depends on it)
+        view = Some(json!({"e":"cfgview","tmo": c.timeout().as_millis() as u64, "intv": c.interval().as_millis() as u64,
+                           "delay": c.initial_delay().as_millis() as u64, "ft": c.failure_threshold(), "sth": c.success_threshold()}));
+    };
+    let mut b = match cfg["ctor"].as_u64().unwrap_or(0) {
+        1 => {
+            let c = HealthCheckConfig::builder().interval(Duration::from_millis(INTERVAL)).initial_delay(Duration::ZERO).timeout(tmo)
+                .failure_threshold(ft).success_threshold(sth).selection_strategy(strat).build();
+            see(&c);
+            HealthCheckWrapper::builder().with_checker(checker).with_config(c)
+        }
+        2 => {
+            let c = HealthCheckConfig::builder().selection_strategy(strat).success_threshold(sth).failure_threshold(ft).timeout(tmo)
+                .initial_delay(Duration::ZERO).interval(Duration::from_millis(INTERVAL)).build();
+            see(&c);
+            HealthCheckWrapper::builder().with_config(c).with_checker(checker)
+        }
+        _ => HealthCheckWrapper::builder()
+            .with_checker(checker)
+            .with_interval(Duration::from_millis(INTERVAL))
+            .with_initial_delay(Duration::ZERO)
+            .with_timeout(tmo)
+            .with_failure_threshold(ft)
+            .with_success_threshold(sth)
+            .with_selection_strategy(strat),
+    };
     for r in 0..n {
         b = b.with_context(r, format!("r{}", r + 1));
     }
     let w = b.build();
     out.push(json!({"e":"reset","comp":"health","cfg":cfg}).to_string());
     let mut ne = 1;
+    if let Some(v) = view {
+        out.push(v.to_string());
+        ne += 1;
+    }
     for (k, res) in rounds.iter().enumerate() {
         {
             let mut g = script.lock().unwrap();
@@ -116,7 +144,9 @@ pub fn run_health(seed: u64, size: Size, out: &mut Vec<String>) -> (usize, usize
     for i in 0..nruns {
         let mut rng = Rng::new(seed.wrapping_mul(7907).wrapping_add(i as u64));
         let n = 1 + rng.below(if size == Size::Quick { 3 } else { 5 });
-        let cfg = json!({"n": n, "ft": 1 + rng.below(3), "sth": 1 + rng.below(3), "strat": *rng.pick(&["first", "rr", "rr", "prefer"])});
+        let long_tmo = rng.pct(30);
+        let cfg = json!({"n": n, "ft": 1 + rng.below(3), "sth": 1 + rng.below(3), "strat": *rng.pick(&["first", "rr", "rr", "prefer"]),
+                         "tmo": if long_tmo { 12 } else { TIMEOUT }, "ctor": rng.below(3)});
         // biased result alphabets so that runs of successes and failures of every length occur
         let bias = rng.below(3);
         let mut rounds = vec![];
@@ -129,6 +159,8 @@ pub fn run_health(seed: u64, size: Size, out: &mut Vec<String>) -> (usize, usize
                     1 => *rng.pick(&["u", "u", "s", "h", "d", "k"]),
                     _ => *rng.pick(&["h", "d", "u", "k", "s"]),
                 };
+                // under the longer timeout a slow check is merely late
+                let x = if long_tmo && x == "s" { "l" } else { x };
                 res.push(x.to_string());
             }
             rounds.push(res);
